@@ -99,12 +99,12 @@ func CNIConf(t *rapid.T) map[string]any {
 	maybe(t, m, "name", func() any { return "terway" })
 	maybe(t, m, "veth_prefix", func() any { return "cali" })
 	maybe(t, m, "eniip_virtual_type", func() any {
-		return rapid.SampledFrom([]string{"", "Veth", "veth", "IPVlan", "ipvlan", "datapathv2", "DataPathV2", "vlan"}).Draw(t, "vt")
+		return rapid.SampledFrom([]string{"", "Veth", "veth", "IPVlan", "ipvlan", "IPVlan", "ipvlan", "datapathv2", "DataPathV2", "vlan"}).Draw(t, "vt")
 	})
 	maybe(t, m, "host_stack_cidrs", func() any {
 		out := []any{}
 		for i, n := 0, rapid.IntRange(0, 2).Draw(t, "ncidr"); i < n; i++ {
-			out = append(out, rapid.SampledFrom([]string{CIDRv4(t), CIDRv6(t), "169.254.20.10/32"}).Draw(t, "hs"))
+			out = append(out, rapid.SampledFrom([]string{CIDRv4(t), CIDRv4(t), CIDRv6(t), "169.254.20.10/32", MappedCIDR(t)}).Draw(t, "hs"))
 		}
 		return out
 	})
@@ -140,8 +140,31 @@ func CNIConf(t *rapid.T) map[string]any {
 	return m
 }
 
+// MappedCIDR draws a CIDR written in IPv4-mapped / IPv4-compatible IPv6 notation
+// (net.ParseCIDR accepts it and returns a 16-byte address with a 16-byte mask), with
+// prefix lengths around the 96-bit boundary where the embedded IPv4 part starts.
+func MappedCIDR(t *rapid.T) string {
+	n := rapid.OneOf(rapid.IntRange(96, 128), rapid.IntRange(96, 128), rapid.IntRange(0, 128)).Draw(t, "mappedlen")
+	switch rapid.IntRange(0, 3).Draw(t, "mappedform") {
+	case 0, 1:
+		return fmt.Sprintf("::ffff:%s/%d", IPv4(t), n)
+	case 2:
+		return fmt.Sprintf("::ffff:%x:%x/%d", rapid.IntRange(0, 0xffff).Draw(t, "hi"), rapid.IntRange(0, 0xffff).Draw(t, "lo"), n)
+	default:
+		return fmt.Sprintf("::%s/%d", IPv4(t), n)
+	}
+}
+
+// HostStackHostile are hostile host_stack_cidrs entries.
+var HostStackHostile = []string{"::ffff:100.64.0.0/106", "::ffff:169.254.20.10/128", "::ffff:10.0.0.0/96", "::ffff:10.0.0.0/104",
+	"::ffff:0:0/96", "::ffff:a00:0/120", "::10.0.0.0/104", "::/0", "::/96", "::ffff:10.0.0.0/95", "0.0.0.0/0", "255.255.255.255/32",
+	"10.0.0.1/24", "fd00::/8", "64:ff9b::10.0.0.0/104", "::ffff:10.0.0.0/129", "10.0.0.0/33", "::ffff:10.0.0.0", "", " "}
+
 // CNIConfHostile are hostile CNI configuration constants.
 var CNIConfHostile = []string{
+	`{"type":"terway","eniip_virtual_type":"IPVlan","host_stack_cidrs":["169.254.20.10/32","::ffff:100.64.0.0/106"]}`,
+	`{"type":"terway","eniip_virtual_type":"ipvlan","host_stack_cidrs":["::ffff:10.0.0.0/96"]}`,
+	`{"type":"terway","eniip_virtual_type":"IPVlan","host_stack_cidrs":["::ffff:a00:0/128","::10.0.0.0/104","fd00::/64"]}`,
 	`{}`, `null`, `[]`, `{"type":null}`, `{"type":1}`, `{"mtu":"1500"}`, `{"mtu":1e400}`, `{"mtu":-1}`, `{"host_stack_cidrs":[null]}`,
 	`{"host_stack_cidrs":["x"]}`, `{"runtimeConfig":null}`, `{"runtimeConfig":{"bandwidth":null}}`,
 	`{"runtimeConfig":{"bandwidth":{"egressRate":-8}}}`, `{"runtimeConfig":{"bandwidth":{"egressRate":9223372036854775807}}}`,
